@@ -977,7 +977,9 @@ def _parse_rewrite(ln, path, i):
     elif cnt:
         expect = int(cnt)
     else:
-        expect = None if where == "unit" else 1
+        # default: rewrite every site that is there (possibly none).  A refactoring that removes a site must lead to a proof
+        # obligation failing (or to an honest "unsupported construct"), not to a lost anchor; applications are counted and reported.
+        expect = None if where == "unit" else -1
     return (m.group(2), m.group(3), expect, where)
 
 
